@@ -304,7 +304,20 @@ def role_calls():
     def mk(fn, *a, **k):
         return lambda: fn(*a, **k)
 
-    roles = {"render": [], "join": [], "construct": [], "modify": [], "query": []}
+    import yarl
+
+    roles = {"render": [], "join": [], "construct": [], "modify": [], "query": [], "cacheapi": []}
+    # the cache API itself as a role, FAILING calls included (a size of the wrong type): an error path that leaves something behind
+    # (a held lock, a half-swapped set of wrappers) shows in the paired thread of the same role and in every other role
+    roles["cacheapi"] = [
+        ("cache_clear()", lambda: yarl.cache_clear()), ("cache_info() keys", lambda: sorted(yarl.cache_info())),
+        ("cache_configure(8, 8, 8)", lambda: yarl.cache_configure(idna_encode_size=8, idna_decode_size=8, encode_host_size=8)),
+        ("cache_configure(idna_encode_size='256')", lambda: yarl.cache_configure(idna_encode_size="256")),
+        ("cache_configure(None, None, None)", lambda: yarl.cache_configure(idna_encode_size=None, idna_decode_size=None, encode_host_size=None)),
+        ("cache_configure(encode_host_size=256.0)", lambda: yarl.cache_configure(encode_host_size=256.0)), ("cache_configure()", lambda: yarl.cache_configure()),
+        ("cache_configure(idna_decode_size=[])", lambda: yarl.cache_configure(idna_decode_size=[])), ("cache_configure(0, 0, 0)", lambda: yarl.cache_configure(idna_encode_size=0, idna_decode_size=0, encode_host_size=0)),
+        ("host through the caches", lambda: URL("http://bücher.example/").with_host("münchen.example").host),
+    ]
     # query arguments of every form whose VALUES differ from call to call (threads of this role start at different offsets, so at any
     # moment they render different values): a value parked in shared state between two steps of one rendering shows up in another's result
     qb = URL("http://example.com/p?z=0")
@@ -337,7 +350,47 @@ def role_calls():
     return roles
 
 
+def _join_or_blocked(ths, done, stage_dir, quiet_s=15.0, cap_s=900.0):
+    """Wait for the threads.  Returns None when all finished; otherwise a list describing threads that are BLOCKED inside the staged
+    yarl sources (empty list: still alive for another reason -> inconclusive).  Decided on logical grounds, not on a deadline alone:
+    the progress counters of ALL threads stood still for quiet_s seconds and two stack samples one second apart are identical."""
+    t0 = last_change = time.monotonic()
+    last = list(done)
+    while any(t.is_alive() for t in ths):
+        for t in ths:
+            t.join(0.25)
+        now = time.monotonic()
+        if list(done) != last:
+            last, last_change = list(done), now
+        if now - last_change > quiet_s or now - t0 > cap_s:
+            def sample():
+                fr = sys._current_frames()
+                out = {}
+                for t in ths:
+                    if t.is_alive() and t.ident in fr:
+                        f, where = fr[t.ident], None
+                        while f is not None:
+                            fn = f.f_code.co_filename
+                            if stage_dir and fn.startswith(stage_dir) and "/yarl/" in fn:
+                                where = f"{t.name} at yarl/{fn.rsplit('/', 1)[1]}:{f.f_lineno} in {f.f_code.co_name}"
+                                break
+                            f = f.f_back
+                        out[t.name] = where
+                return out
+            a = sample()
+            time.sleep(1.0)
+            b = sample()
+            if a == b and list(done) == last and any(v for v in b.values()):
+                return sorted(v for v in b.values() if v)
+            if now - t0 > cap_s:
+                return []
+            last_change = now
+    return None
+
+
 def run_roles(ctx):
+    import os
+
     import yarl
 
     warnings.simplefilter("ignore")
@@ -376,13 +429,18 @@ def run_roles(ctx):
                 except BaseException as e:  # noqa: BLE001
                     errors.append((ti, repr(e)))
 
-            ths = [threading.Thread(target=worker, args=(ti,)) for ti in range(nthreads)]
+            ths = [threading.Thread(target=worker, args=(ti,), daemon=True) for ti in range(nthreads)]
             for t in ths:
                 t.start()
-            for t in ths:
-                t.join(900)
-            if any(t.is_alive() for t in ths):
-                ctx.crash = "a role thread did not finish within the watchdog (inconclusive)"
+            blocked = _join_or_blocked(ths, done, os.environ.get("YV_STAGE", ""))
+            if blocked is not None:
+                if blocked:
+                    # no thread advanced for many seconds and the live ones sit, sample after sample, on the same line of the staged
+                    # yarl sources: nothing can wake them up - a sequential run finishes, this one cannot
+                    ctx.fail("thread_blocked_forever", {"round": rd, "threads": nthreads, "part": "roles", "roles": sorted({kind_of(ti) for ti in range(nthreads)})},
+                             "threads stopped making progress inside yarl: " + "; ".join(blocked))
+                else:
+                    ctx.crash = "a role thread did not finish within the watchdog and is not blocked inside yarl (inconclusive)"
                 return
             for ti, e in errors:
                 ctx.fail("thread_exception", {"round": rd, "thread": ti, "threads": nthreads, "part": "roles"}, f"uncaught {e}")
